@@ -475,11 +475,30 @@ def parseRouteOption (t : String) : Option RouteOption :=
   else if t = "sigl" then some (.withSignature false true)
   else if t = "sign" then some (.withSignature false false)
   else if t = "sigs" then some (.withSignature true false)
+  else if t = "sig2" ∨ t = "sigb" ∨ t = "sigx" ∨ t = "sigd" then some (.withSignature true true)
   else if t = "pfx" ∨ t = "prio" ∨ t = "mb" ∨ t = "to" then some .other
   else none
 
 def parseGroup (g : String) : Option (List RouteOption) :=
   if g = "-" then some [] else (g.splitOn "+").mapM parseRouteOption
+
+/-- the `PrivateKeys` a signature option token configures (fingerprint, key file), `none` = not a signature option -/
+def optionKeys (t : String) : Option (List KeyConf) :=
+  if t = "sig" ∨ t = "sigl" then some [("good", "k1")]
+  else if t = "sig2" then some [("alt", "k2")]
+  else if t = "sigb" then some [("good", "k1"), ("alt", "k2")]
+  else if t = "sigx" then some [("good", "k2")]
+  else if t = "sigd" then some [("good", "k2"), ("good", "k1")]
+  else if t = "sign" ∨ t = "sigs" then some []
+  else none
+
+/-- the key list in force for a group: `WithSignature` assigns the whole list, the last such option wins -/
+def groupKeys (g : String) : List KeyConf :=
+  if g = "-" then [] else ((g.splitOn "+").filterMap optionKeys).getLast?.getD []
+
+/-- the key file the group's OWN decrypters hold for a fingerprint (`loadDecrypters` with every file loadable) -/
+def ownKeyFile (keys : List KeyConf) (fp : String) : Option String :=
+  (loadDecrypters (fun file => some file) keys).bind fun m => decrypterOf m fp
 
 def parseMw (s : String) : Option MwConf :=
   match s.toList.map (fun ch => decide (ch = '1')) with
@@ -496,6 +515,7 @@ structure RestCfg where
   uses   : List String
   cb     : Bool
   groups : List (List RouteOption)
+  keys   : List (List KeyConf) := []      -- per group: the PrivateKeys of its signature setting
 
 structure RestSt where
   bound : Option Nat := none      -- after `bind`: the number of groups that were bound
@@ -506,9 +526,10 @@ def parseRestCfg (cfg : List String) : Option RestCfg := do
   let ncm := kvNat cfg "ncm" 0
   let nuse := kvNat cfg "nuse" 0
   let groups ← ((← kv? cfg "groups").splitOn ",").mapM parseGroup
+  let keys := ((← kv? cfg "groups").splitOn ",").map groupKeys
   let custom ← if chainKind = "custom" then some (some ((List.range ncm).map fun i => s!"cm{i}"))
                else if chainKind = "native" then some none else none
-  pure { custom := custom, mw := mw, uses := (List.range nuse).map fun i => s!"use{i}", cb := kvNat cfg "cb" 0 = 1, groups := groups }
+  pure { custom := custom, mw := mw, uses := (List.range nuse).map fun i => s!"use{i}", cb := kvNat cfg "cb" 0 = 1, groups := groups, keys := keys }
 
 def groupName (o : RouteOpts) : String :=
   (if o.jwt then (if o.prev then "jwt-transition" else "jwt") else "nojwt") ++ "-" ++
@@ -586,6 +607,23 @@ def runRestLine (r : Report) (sec : Nat) (cfg : RestCfg) (st : RestSt) (l : Line
           let mshow := show_ run.ran run.status model.2.1 (count "cm" run.saw) (count "use" run.saw) model.2.2.1 model.2.2.2 mseen
           let oshow := show_ ran status ctx cm use ucb scb seen
           let r := if mshow ≠ oshow then r.mismatch sec l.idx mshow oshow else r
+          -- the group's OWN decrypters (model: `loadDecrypters` over the group's key list) against the harness' fact
+          let own := cfg.keys.getD g []
+          let fpSent := ((kv? o "fp").bind unhexStr).getD ""
+          let encTo := kvStr o "enc"
+          let ownHas : Bool := decide (fpSent ≠ "") && decide (ownKeyFile own fpSent = some encTo)
+          let r := if covered ∧ !ownHas then
+              r.mismatch sec l.idx s!"the group's own decrypters hold no key {encTo} for fingerprint {fpSent}: not covered" "csok=1"
+            else r
+          let foreign : Bool := decide (fpSent ≠ "") && !ownHas &&
+            (List.range cfg.groups.length).any fun j => decide (j ≠ g) && decide (ownKeyFile (cfg.keys.getD j []) fpSent = some encTo)
+          let r := if foreign ∧ opts.sig ∧ opts.sigKeys then
+              r.addCover (if opts.sigStrict then (if run.ran then "rest-key-of-another-group-accepted" else
+                            (if (ownKeyFile own fpSent).isSome then "rest-key-of-another-group-rejected-same-fingerprint" else "rest-key-of-another-group-rejected"))
+                          else "rest-key-of-another-group-loose")
+            else r
+          let r := if ownHas ∧ own.length > 1 then r.addCover (if (own.map (·.1)).eraseDups.length < own.length then "rest-repeated-fingerprint-later-file-wins" else "rest-group-with-two-keys") else r
+          let r := if ((cfg.keys.filter (fun k => !k.isEmpty)).eraseDups.length > 1) then r.addCover "rest-server-with-different-keys-per-group" else r
           -- cover
           let r := r.addCover s!"rest-tok-{kvStr a "tok"}"
           let r := r.addCover s!"rest-cs-{kvStr a "cs"}"
